@@ -48,6 +48,12 @@ def r19_1(ctx):
                 detail = "arm `%s`%s" % (ps[:90], " if " + expr_str(g)[:60] if g is not None else " (no guard)")
         r.ob("emits are built only under `SetupContext<..>`", ok_pat and ok_guard, C.mloc(ee, n),
              detail if (ok_pat and ok_guard) else detail + " — the name test / type-argument requirement is missing")
+    # the context parameter may be written as an identifier or destructured: every binding-pattern form that carries an annotation is read
+    forms = {x.get("variant") for x in idx.nodes if x.get("k") in ("PTupleStruct", "PStruct") and x.get("adt") == AST + "Pat"}
+    need = {"Ident", "Array", "Object"}
+    r.ob("the annotation is read from every form of the second parameter (identifier / array pattern / object pattern)", need <= forms, C.mloc(ee, ee),
+         "pattern forms matched: %s" % sorted(f for f in forms if f) if need <= forms else
+         "no arm for %s: `(props, { emit }: SetupContext<E>) => ..` gets no emits" % sorted(need - forms))
     # every other arm / path of the annotation match yields None
     for m in idx.nodes:
         if m.get("k") == "Match" and any("TsTypeRef(" in pat_str(a["pat"]) for a in m["arms"]):
@@ -139,7 +145,10 @@ def r19_3(ctx):
 
 
 def rules(ctx):
-    return [r19_1, r19_2, r19_3, c16.r16_1, c16.r16_2, c16.r16_3]
+    from ..engine import only
+    from . import c20
+    return [r19_1, r19_2, r19_3, c16.r16_1, c16.r16_2, c16.r16_3,
+            only(c20.r20_2, lambda k: "recorded" in k or "define_component" in k or "specifier" in k, "the emits option is only produced for calls recognised as Vue's defineComponent; the record of that import must survive later imports")]
 
 
 EXPLANATION = (
